@@ -28,8 +28,8 @@ Public functions
     render_text_lines(console, obj, W)-> the same lines as plain strings
     kids_of(desc), depth(desc), size(desc), deviations(desc), ends_with_newline(desc), valid(desc)
     T(s, **opts), leaf_menu(n_texts, others=True)
-    skeletons(depth, max_children, leaves, kinds=CONTAINER_KINDS, inner_leaves=None)
-                                      -> every default-option tree of depth <= `depth`
+    skeletons(depth, max_children, leaves, kinds=CONTAINER_KINDS, inner_leaves=None, exact_depth=False,
+              root_kinds=None)        -> every default-option tree of depth <= `depth` (== with exact_depth)
     chains(length, leaves, kinds=CONTAINER_KINDS)
                                       -> every single-child container chain of exactly `length` containers
     sites(desc, alts=None, include_fixed=False)
